@@ -12,6 +12,7 @@ from .. import expr as E, pipeline, routinegen as G
 from ..real import schema, try_compile
 
 LEVEL = "proof"
+PORT_NAMES = ["ctrl", "data_in", "data_out", "flag", "garbage", "a0", "b1", "c2", "d3", "e4", "m_1", "q", "reg_x", "sys", "tgt", "u", "w_w", "zz"]
 ODD_NAMES = ["N", "x_y", "a_b_c", "_x", "x_", "_", "lambda", "alpha_beta", "n_1", "T_gates", "__z", "Q2", "eps_0_1"]
 
 
@@ -38,6 +39,15 @@ def gen(seed, extra):
         r["value"] = rn_tree(r["value"])
         if pool and rng.random() < 0.4:
             r["name"] = pool.pop()
+    # ports of the top-level routine get free-form names, so that their alphabetical order (the order QREF keeps them in)
+    # interleaves the three directions
+    if spec["ports"] and rng.random() < 0.6:
+        names = rng.sample(PORT_NAMES, len(spec["ports"])) if len(spec["ports"]) <= len(PORT_NAMES) else None
+        if names:
+            pm = {p["name"]: n for p, n in zip(spec["ports"], names)}
+            for p in spec["ports"]:
+                p["name"] = pm[p["name"]]
+            spec["connections"] = [(((None, pm[a[1]]) if a[0] is None else a), ((None, pm[b[1]]) if b[0] is None else b)) for a, b in spec["connections"]]
     if spec["repetition"]:
         spec["repetition"]["count"] = rn_tree(spec["repetition"]["count"])
         for k, v in list(spec["repetition"]["sequence"].items()):
